@@ -10,10 +10,12 @@
 package main
 
 import (
+	"bufio"
 	"bytes"
 	"context"
 	"encoding/json"
 	"fmt"
+	"io"
 	"math/rand/v2"
 	"os"
 	"os/exec"
@@ -40,43 +42,69 @@ func main() {
 		childMain(p)
 		return
 	}
-	if p := os.Getenv("C09_LAUNCH"); p != "" {
-		launcherMain(p)
+	if os.Getenv("C09_LAUNCH") != "" {
+		launcherMain()
 		return
 	}
 	vk.Run("C09", "exploration", run)
 }
 
-// launcherMain is a small intermediate process: it starts the case child, waits for it with wait4 and
-// prints the child's rusage in front of the child's output. It exists because on Linux ru_maxrss of an
-// exec'ed child starts at the resident set of the process that forked it (vfork shares the address
-// space until exec): forked from this small launcher instead of the parent (which builds the inputs),
-// the child's ru_maxrss is its own.
-func launcherMain(caseFile string) {
-	ctx, cancel := context.WithTimeout(context.Background(), childWall)
-	defer cancel()
-	cmd := exec.CommandContext(ctx, os.Args[0])
-	cmd.Env = append(os.Environ(), "C09_CHILD="+caseFile, "C09_LAUNCH=")
-	var so bytes.Buffer
-	cmd.Stdout, cmd.Stderr = &so, os.Stderr
-	_ = cmd.Run()
-	exit, sig, maxrss, cpuMs := -1, "", int64(0), int64(0)
-	if ps := cmd.ProcessState; ps != nil {
-		exit = ps.ExitCode()
-		if ru, ok := ps.SysUsage().(*syscall.Rusage); ok {
-			maxrss = ru.Maxrss
+// launcherMain is a small, long-lived intermediate process (one per worker slot): it reads case file
+// names from stdin, runs one fresh case child per name, waits for it with wait4 and answers with one
+// JSON line carrying the child's rusage, exit status and output. It exists because on Linux ru_maxrss
+// of an exec'ed child starts at the resident set of the process that forked it (vfork shares the
+// address space until exec): forked from this launcher, which never builds an input and stays at the
+// size of an idle Go process, the child's ru_maxrss is its own.
+func launcherMain() {
+	in := bufio.NewScanner(os.Stdin)
+	out := bufio.NewWriter(os.Stdout)
+	for in.Scan() {
+		caseFile := in.Text()
+		if caseFile == "" {
+			continue
 		}
-		cpuMs = (ps.UserTime() + ps.SystemTime()).Milliseconds()
-		if ws, ok := ps.Sys().(syscall.WaitStatus); ok && ws.Signaled() {
-			sig = ws.Signal().String()
+		ctx, cancel := context.WithTimeout(context.Background(), childWall)
+		cmd := exec.CommandContext(ctx, os.Args[0])
+		cmd.Env = append(os.Environ(), "C09_CHILD="+caseFile, "C09_LAUNCH=")
+		var so, se bytes.Buffer
+		cmd.Stdout, cmd.Stderr = &so, &se
+		start := time.Now()
+		_ = cmd.Run()
+		rep := launchReply{Exit: -1, WallMs: time.Since(start).Milliseconds()}
+		if ps := cmd.ProcessState; ps != nil {
+			rep.Exit = ps.ExitCode()
+			if ru, ok := ps.SysUsage().(*syscall.Rusage); ok {
+				rep.MaxRSS = ru.Maxrss
+			}
+			rep.CPUMs = (ps.UserTime() + ps.SystemTime()).Milliseconds()
+			if ws, ok := ps.Sys().(syscall.WaitStatus); ok && ws.Signaled() {
+				rep.Signal = ws.Signal().String()
+			}
 		}
+		if ctx.Err() != nil {
+			rep.Signal = "timeout"
+		}
+		cancel()
+		rep.Stdout = so.String()
+		rep.Stderr = se.String()
+		if len(rep.Stderr) > 3000 {
+			rep.Stderr = rep.Stderr[:1500] + " ... " + rep.Stderr[len(rep.Stderr)-1500:]
+		}
+		b, _ := json.Marshal(rep)
+		out.Write(b)
+		out.WriteByte('\n')
+		out.Flush()
 	}
-	if ctx.Err() != nil {
-		sig = "timeout"
-	}
-	fmt.Printf("RUSAGE %d %d %q %d\n", maxrss, exit, sig, cpuMs)
-	os.Stdout.Write(so.Bytes())
-	os.Exit(0)
+}
+
+type launchReply struct {
+	MaxRSS int64  `json:"maxrss_kib"`
+	Exit   int    `json:"exit"`
+	Signal string `json:"signal"`
+	CPUMs  int64  `json:"cpu_ms"`
+	WallMs int64  `json:"wall_ms"`
+	Stdout string `json:"stdout"`
+	Stderr string `json:"stderr"`
 }
 
 type outcome struct {
@@ -90,7 +118,48 @@ type outcome struct {
 	cpuMs    int64
 }
 
-func runChild(t *vk.T, dir string, c *Case) outcome {
+// launcher is the parent's handle on one launcher process.
+type launcher struct {
+	cmd *exec.Cmd
+	in  io.WriteCloser
+	out *bufio.Reader
+}
+
+func startLauncher() (*launcher, error) {
+	cmd := exec.Command(os.Args[0])
+	cmd.Env = append(os.Environ(), "C09_LAUNCH=1", "GOMAXPROCS=4", "GOTRACEBACK=single")
+	cmd.Stderr = os.Stderr
+	in, err := cmd.StdinPipe()
+	if err != nil {
+		return nil, err
+	}
+	op, err := cmd.StdoutPipe()
+	if err != nil {
+		return nil, err
+	}
+	if err := cmd.Start(); err != nil {
+		return nil, err
+	}
+	return &launcher{cmd: cmd, in: in, out: bufio.NewReaderSize(op, 1<<20)}, nil
+}
+
+func (l *launcher) stop() {
+	if l == nil {
+		return
+	}
+	l.in.Close()
+	done := make(chan struct{})
+	go func() { l.cmd.Wait(); close(done) }()
+	select {
+	case <-done:
+	case <-time.After(5 * time.Second):
+		l.cmd.Process.Kill()
+		<-done
+	}
+}
+
+// runChild executes one case in a fresh child through launcher *lp (restarted if it died).
+func runChild(t *vk.T, lp **launcher, dir string, c *Case) outcome {
 	var o outcome
 	cf := filepath.Join(dir, fmt.Sprintf("case-%d.json", c.I))
 	b, _ := json.Marshal(c)
@@ -98,38 +167,64 @@ func runChild(t *vk.T, dir string, c *Case) outcome {
 		t.Broken("write case: %v", err)
 	}
 	defer os.Remove(cf)
-	ctx, cancel := context.WithTimeout(context.Background(), childWall+20*time.Second)
-	defer cancel()
-	cmd := exec.CommandContext(ctx, os.Args[0])
-	cmd.Env = append(os.Environ(), "C09_LAUNCH="+cf, "GOMAXPROCS=4", "GOTRACEBACK=single")
-	var so, se bytes.Buffer
-	cmd.Stdout, cmd.Stderr = &so, &se
-	start := time.Now()
-	err := cmd.Run()
-	o.wall = time.Since(start)
-	if ctx.Err() != nil {
-		o.timedOut = true
-	}
-	_ = err
 	o.exit = -1
-	out := so.Bytes()
-	if i := bytes.IndexByte(out, '\n'); i > 0 && bytes.HasPrefix(out, []byte("RUSAGE ")) {
-		fmt.Sscanf(string(out[:i]), "RUSAGE %d %d %q %d", &o.maxrss, &o.exit, &o.signal, &o.cpuMs)
-		out = out[i+1:]
-	}
-	if o.signal == "timeout" {
-		o.timedOut = true
-	}
-	s := se.String()
-	if len(s) > 3000 {
-		s = s[:1500] + " ... " + s[len(s)-1500:]
-	}
-	o.stderr = s
-	if o.exit == 0 {
-		var r Result
-		if json.Unmarshal(bytes.TrimSpace(out), &r) == nil {
-			o.res = &r
+	for attempt := 0; attempt < 2; attempt++ {
+		if *lp == nil {
+			l, err := startLauncher()
+			if err != nil {
+				t.Broken("start launcher: %v", err)
+			}
+			*lp = l
 		}
+		l := *lp
+		type answer struct {
+			line []byte
+			err  error
+		}
+		ch := make(chan answer, 1)
+		start := time.Now()
+		if _, err := io.WriteString(l.in, cf+"\n"); err != nil {
+			l.cmd.Process.Kill()
+			l.stop()
+			*lp = nil
+			continue
+		}
+		go func() {
+			line, err := l.out.ReadBytes('\n')
+			ch <- answer{line, err}
+		}()
+		var a answer
+		select {
+		case a = <-ch:
+		case <-time.After(childWall + 30*time.Second):
+			a.err = fmt.Errorf("launcher does not answer")
+			o.timedOut = true
+		}
+		o.wall = time.Since(start)
+		if a.err != nil {
+			l.cmd.Process.Kill()
+			l.stop()
+			*lp = nil
+			if o.timedOut {
+				return o
+			}
+			continue
+		}
+		var rep launchReply
+		if err := json.Unmarshal(a.line, &rep); err != nil {
+			t.Broken("launcher reply: %v", err)
+		}
+		o.maxrss, o.exit, o.signal, o.cpuMs, o.stderr = rep.MaxRSS, rep.Exit, rep.Signal, rep.CPUMs, rep.Stderr
+		if o.signal == "timeout" {
+			o.timedOut = true
+		}
+		if o.exit == 0 {
+			var r Result
+			if json.Unmarshal(bytes.TrimSpace([]byte(rep.Stdout)), &r) == nil {
+				o.res = &r
+			}
+		}
+		return o
 	}
 	return o
 }
@@ -516,7 +611,7 @@ func (r *runner) fail(format string, a ...any) {
 	r.mu.Unlock()
 }
 
-func (r *runner) runPlan(pl *plan) {
+func (r *runner) runPlan(lp **launcher, pl *plan) {
 	defer func() {
 		if p := recover(); p != nil {
 			r.fail("harness panic in case %d (%s): %v\n%s", pl.c.I, pl.stratum, p, debug.Stack())
@@ -534,7 +629,7 @@ func (r *runner) runPlan(pl *plan) {
 	}
 	pl.c.Input, pl.c.InputSize = path, int64(len(in))
 	in = nil
-	o := runChild(r.t, r.dir, &pl.c)
+	o := runChild(r.t, lp, r.dir, &pl.c)
 	os.Remove(path)
 	r.evaluate(pl, o)
 }
@@ -582,12 +677,14 @@ func run(t *vk.T) {
 	if err != nil {
 		t.Broken("empty doc: %v", err)
 	}
+	var base *launcher
+	defer func() { base.stop() }()
 	for i := 0; i < 3; i++ {
 		pl := &plan{c: Case{I: -1 - i, Fam: "empty", Kind: "empty", Entry: "ExtractContent", Via: "ctx", Container: "objstm"}}
 		path := filepath.Join(r.dir, fmt.Sprintf("empty-%d.pdf", i))
 		os.WriteFile(path, empty, 0o644)
 		pl.c.Input, pl.c.InputSize = path, int64(len(empty))
-		o := runChild(t, r.dir, &pl.c)
+		o := runChild(t, &base, r.dir, &pl.c)
 		if o.res == nil || o.res.Failed != "" {
 			t.Broken("baseline child failed: exit=%d %s %+v", o.exit, o.stderr, o.res)
 		}
@@ -646,8 +743,10 @@ func run(t *vk.T) {
 		wg.Add(1)
 		go func() {
 			defer wg.Done()
+			var l *launcher
+			defer func() { l.stop() }()
 			for p := range ch {
-				r.runPlan(p)
+				r.runPlan(&l, p)
 			}
 		}()
 	}
@@ -657,7 +756,7 @@ func run(t *vk.T) {
 	close(ch)
 	wg.Wait()
 	for _, p := range heavy {
-		r.runPlan(p)
+		r.runPlan(&base, p)
 	}
 	if r.broken != "" {
 		t.Broken("%s", r.broken)
